@@ -38,3 +38,7 @@ def run(repo, res, tier):
     # tools hand over open files, the library functions usually paths)
     from .. import entryrules as _er
     _er.rule_f4(repo, res)
+
+    # the by-character fall-back for files with an undecodable tail reads bytes, also for an already-open text stream
+    from .. import apirules as _ap5
+    _ap5.rule_f5(repo, res)
